@@ -390,6 +390,8 @@ func c08RunImpl(c corr.Case) []string {
 				return corr.HexS(r.opened[0])
 			case "op":
 				return c08Op(t)
+			case "iofsos":
+				return c08OSOp(t)
 			}
 			return "bad-op"
 		}))
@@ -401,6 +403,10 @@ func c08Oracle(c corr.Case, impl []string) (string, int) {
 	for i, line := range c.Lines {
 		t := strings.Fields(line)
 		switch t[0] {
+		case "iofsos":
+			if strings.Contains(impl[i], "LEAK") || impl[i] == "panic" {
+				return fmt.Sprintf("%s over the OS, %s(%q): %s", t[1], t[2], corr.UnHex(t[3]), impl[i]), i
+			}
 		case "op":
 			if strings.Contains(impl[i], "LEAK") || impl[i] == "panic" {
 				return fmt.Sprintf("%s %s on root %q name %q: %s", t[1], t[3], corr.UnHex(t[2]), corr.UnHex(t[4]), impl[i]), i
@@ -583,6 +589,11 @@ func c08Exhaustive(tier string) []corr.Case {
 				}
 			}
 		}
+	}
+	flush()
+	// 4. the io/fs adapter over a BasePathFs on the operating system's file system: every entry point × escaping names
+	for _, l := range c08OSCases() {
+		add(l)
 	}
 	flush()
 	return cases
